@@ -3,7 +3,8 @@
 import filecmp, os, shutil, subprocess, sys
 
 prop = sys.argv[1].upper()
-src = sys.argv[2] if len(sys.argv) > 2 else "/var/tmp/w_%s" % prop.lower()
+pos = [a for a in sys.argv[2:] if not a.startswith("--")]
+src = pos[0] if pos else "/var/tmp/w_%s" % prop.lower()
 dst = "/verif"
 SHARED = {"checks/vlib.py", "checks/check.py", "checks/setup.sh", "lean/lakefile.toml", "lean/FeatModel/Model/Proto.lean",
           "harness/common/exact_q.hpp", "harness/common/forkcase.hpp", "MANIFEST.json", "DESIGN.md", "CONTRIBUTING.md",
@@ -28,7 +29,9 @@ print("NEW:", *new, sep="\n  ")
 print("CHANGED (non-shared):", *changed, sep="\n  ")
 print("CHANGED SHARED (not copied, review by hand):", *shared_changed, sep="\n  ")
 if "--apply" in sys.argv:
-    for rel in new + changed:
+    own = [r for r in changed if prop.lower() in r.lower()]
+    print("changed files applied (own):", own)
+    for rel in new + own:
         os.makedirs(os.path.dirname(os.path.join(dst, rel)) or ".", exist_ok=True)
         shutil.copy2(os.path.join(src, rel), os.path.join(dst, rel))
-    print("applied %d files" % len(new + changed))
+    print("applied %d files" % len(new + own))
